@@ -217,16 +217,18 @@ def extract (cx : Ctx) (curr : String) (ext : List NT) (e : Expr) : Expr × List
       else if found.isSome then freshName ext name (ext.length + 1) 1 else name
     (.ref (cx.base + ext.length), ext ++ [⟨name, e⟩])
 
+/-- what one argument of `concat` contributes: a sequence is flattened, `Empty` dropped -/
+def concatPart : Expr → List Expr
+  | .seq s => s
+  | .empty => []
+  | e => [e]
+
 /-- mirror of `concat` -/
 def concat (l : List Expr) : Expr :=
-  let subs := l.flatMap fun el => match el with
-    | .seq s => s
-    | .empty => []
-    | e => [e]
-  match subs with
+  match l.flatMap concatPart with
   | [] => .empty
   | [x] => x
-  | _ => .seq subs
+  | subs => .seq subs
 
 def multiConcat (a b : List Expr) : List Expr :=
   a.flatMap fun x => b.map fun y => concat [x, y]
@@ -308,6 +310,12 @@ def collapseEmpty : List Expr → List Expr
   | [] => []
   | e :: es => if isEmptyExpr e then e :: dropEmpties es else e :: collapseEmpty es
 
+/-- the recursive part of a list rule: the list itself with its separator on the proper side
+(`rec` in `Expand`: `Sequence[listRef]`, then `concat(sep, rec)` / `concat(rec, sep)`) -/
+def listRec (self : Nat) (rr : Bool) (sep : Expr) : Expr :=
+  if isEmptyExpr sep then .seq [.ref self]
+  else if rr then concat [sep, .seq [.ref self]] else concat [.seq [.ref self], sep]
+
 /-- the rules of a nonterminal whose value is a set, a lookahead, an extracted optional or list
 (second loop of `Expand`, `ResolveSets`, the lookahead rule of `generateTables`); `self` is the
 nonterminal's own symbol. `none`: "internal error" / not properly instantiated. -/
@@ -319,9 +327,7 @@ def synth (cx : Ctx) (self : Nat) : Expr → Option (List Expr)
   | .lookahead _ => some [.empty]
   | .opt (.ref s) => some [.ref s, .empty]
   | .list ne rr elem sep =>
-    let listRef := Expr.seq [.ref self]
-    let rec_ := if isEmptyExpr sep then listRef
-      else if rr then concat [sep, listRef] else concat [listRef, sep]
+    let rec_ := listRec self rr sep
     match elem with
     | .choice subs =>
       some ((if rr then multiConcat subs [rec_] else multiConcat [rec_] subs) ++
